@@ -355,12 +355,6 @@ func c13Render(c *Ctx, p *Prog) {
 		return
 	}
 	site := p.pos(fn.Pos())
-	mk := func() *e6Interp { return &e6Interp{PureCall: func(f *types.Func) bool { return true }} }
-	outs, why := e6Enumerate(mk, fn.Blocks[0], nil, nil, 1024)
-	if why != "" {
-		c.Undecided(R, "PctRangeString", site, why)
-		return
-	}
 	leafOf := func(s *Sym) string {
 		for _, f := range []string{"Center", "Lo", "Hi"} {
 			if (s.Op == "field" || s.Op == "load") && strings.HasSuffix(s.String(), "."+f) || (s.Op == "load" && strings.HasSuffix(s.String(), "."+f+")")) {
@@ -369,78 +363,176 @@ func c13Render(c *Ctx, p *Prog) {
 		}
 		return ""
 	}
+	// The documented cases are stated in terms of the signs of the centre and the two ends, so the method is evaluated
+	// once per sign assignment (27 of them): branch conditions that follow from the signs (Sign(x) comparisons, x == 0,
+	// products or quotients compared with 0, ...) are answered from the assignment, whatever form they are written in;
+	// the IsInf tests stay symbolic.
 	n := 0
-	for _, o := range outs {
-		if o.Term != "return" {
-			continue
-		}
-		res := o.Results[0]
-		// classify the path by its atoms
-		infTrue, signMismatch, zero := false, false, false
-		unknown := ""
-		for k, v := range o.Assign {
-			s := o.AtomSyms[k]
-			str := s.String()
-			switch {
-			case strings.Contains(str, "math.IsInf"):
-				if v {
-					infTrue = true
-				}
-			case strings.Contains(str, "Sign"):
-				// (Sign(C) == Sign(X)): mismatch when false
-				if s.Op == "binop" && s.Tok == token.EQL && !v {
-					signMismatch = true
-				}
-			case s.Op == "binop" && s.Tok == token.EQL && leafOf(s.Args[0]) == "Center" && s.Args[1].isConst():
-				zero = v
-			default:
-				unknown = k
-			}
-		}
-		if unknown != "" {
-			c.Undecided(R, "PctRangeString:atoms", site, "condition outside the table: "+unknown)
-			return
-		}
-		n++
-		switch {
-		case infTrue:
-			got, _ := constString2(res)
-			c.Check(got == "∞", R, "PctRangeString[infinite end]", site, "renders ∞", "an infinite interval end renders "+res.String())
-		case signMismatch:
-			got, _ := constString2(res)
-			c.Check(got == "?", R, "PctRangeString[sign mismatch]", site, "renders ?", "a sign mismatch renders "+res.String())
-		case zero:
-			got, _ := constString2(res)
-			c.Check(got == "0%", R, "PctRangeString[zero centre]", site, "renders 0%", "a zero centre renders "+res.String())
-		default:
-			ok := false
-			detail := "the range is not rendered with fmt.Sprintf"
-			if res.Op == "call" && strings.HasPrefix(res.Name, "fmt.Sprintf") {
-				fs, _ := constString2(res.Args[0])
-				args := o.VarArgs(e6Action{Args: res.Args})
-				if fs != "%.0f%%" {
-					detail = fmt.Sprintf("range format is %q, documented %%.0f%%%%", fs)
-				} else if len(args) != 1 {
-					detail = "unexpected Sprintf arguments"
-				} else {
-					// sample points: positive and negative intervals with Lo <= Center <= Hi of one sign
-					pts := []map[string]*big.Rat{
-						{"Center": rat(10, 1), "Lo": rat(8, 1), "Hi": rat(13, 1)},
-						{"Center": rat(7, 2), "Lo": rat(1, 2), "Hi": rat(4, 1)},
-						{"Center": rat(-10, 1), "Lo": rat(-13, 1), "Hi": rat(-8, 1)},
-						{"Center": rat(-7, 2), "Lo": rat(-4, 1), "Hi": rat(-1, 2)},
+	names := map[int]string{-1: "-", 0: "0", 1: "+"}
+	for _, sc := range []int{-1, 0, 1} {
+		for _, sl := range []int{-1, 0, 1} {
+			for _, sh := range []int{-1, 0, 1} {
+				env := map[string]int{"Center": sc, "Lo": sl, "Hi": sh}
+				var signOf func(s *Sym) (int, bool, bool) // sign, known, exact (the value is itself -1/0/1)
+				signOf = func(s *Sym) (int, bool, bool) {
+					if l := leafOf(s); l != "" {
+						return env[l], true, false
 					}
-					ok, detail = e7Equal(args[0], func(g func(string) *big.Rat) *big.Rat {
-						c0 := g("Center")
-						dev := rMax(rAbs(rSub(g("Hi"), c0)), rAbs(rSub(c0, g("Lo"))))
-						return rMul(rat(100, 1), rQuo(dev, rAbs(c0)))
-					}, pts, leafOf)
+					switch s.Op {
+					case "const":
+						if s.Const != nil && (s.Const.Kind() == constant.Int || s.Const.Kind() == constant.Float) {
+							sg := constant.Sign(s.Const)
+							f, _ := constant.Float64Val(constant.ToFloat(s.Const))
+							return sg, true, f == -1 || f == 0 || f == 1
+						}
+					case "convert":
+						if len(s.Args) == 1 {
+							return signOf(s.Args[0])
+						}
+					case "unop":
+						if s.Tok == token.SUB {
+							a, k, ex := signOf(s.Args[0])
+							return -a, k, ex
+						}
+					case "binop":
+						if s.Tok == token.MUL || s.Tok == token.QUO {
+							a, ka, _ := signOf(s.Args[0])
+							b, kb, _ := signOf(s.Args[1])
+							if ka && kb && !(s.Tok == token.QUO && b == 0) {
+								return a * b, true, false
+							}
+						}
+					case "call":
+						nm := s.Name
+						switch {
+						case strings.Contains(nm, "mathx.Sign") && len(s.Args) == 1:
+							a, k, _ := signOf(s.Args[0])
+							return a, k, true
+						case strings.HasPrefix(nm, "math.Abs") && len(s.Args) == 1:
+							a, k, _ := signOf(s.Args[0])
+							if a < 0 {
+								a = -a
+							}
+							return a, k, false
+						case strings.HasPrefix(nm, "math.Signbit") && len(s.Args) == 1:
+							return 0, false, false
+						}
+					}
+					return 0, false, false
+				}
+				decide := func(s *Sym) (bool, bool) {
+					if s.Op == "call" && strings.HasPrefix(s.Name, "math.Signbit") && len(s.Args) == 1 {
+						if a, k, _ := signOf(s.Args[0]); k && a != 0 {
+							return a < 0, true
+						}
+						return false, false
+					}
+					if s.Op != "binop" {
+						return false, false
+					}
+					a, ka, ea := signOf(s.Args[0])
+					b, kb, eb := signOf(s.Args[1])
+					if !ka || !kb {
+						return false, false
+					}
+					exact := (ea && eb) || (eb && b == 0) || (ea && a == 0)
+					switch s.Tok {
+					case token.EQL, token.NEQ:
+						if a != b {
+							return s.Tok == token.NEQ, true
+						}
+						if exact {
+							return s.Tok == token.EQL, true
+						}
+					case token.LSS, token.LEQ, token.GTR, token.GEQ:
+						if a != b || exact {
+							switch s.Tok {
+							case token.LSS:
+								return a < b, true
+							case token.LEQ:
+								return a <= b, true
+							case token.GTR:
+								return a > b, true
+							case token.GEQ:
+								return a >= b, true
+							}
+						}
+					}
+					return false, false
+				}
+				mk := func() *e6Interp {
+					return &e6Interp{PureCall: func(f *types.Func) bool { return true }, Decide: decide}
+				}
+				outs, why := e6Enumerate(mk, fn.Blocks[0], nil, nil, 1024)
+				if why != "" {
+					c.Undecided(R, "PctRangeString", site, why)
+					return
+				}
+				signs := fmt.Sprintf("centre%s lo%s hi%s", names[sc], names[sl], names[sh])
+				for _, o := range outs {
+					if o.Term != "return" {
+						continue
+					}
+					res := o.Results[0]
+					infTrue := false
+					unknown := ""
+					for k, v := range o.Assign {
+						if strings.Contains(o.AtomSyms[k].String(), "math.IsInf") {
+							if v {
+								infTrue = true
+							}
+						} else {
+							unknown = k
+						}
+					}
+					if unknown != "" {
+						c.Undecided(R, "PctRangeString:atoms", site, "a condition that the signs of centre and ends do not decide: "+unknown)
+						return
+					}
+					n++
+					got, _ := constString2(res)
+					switch {
+					case infTrue:
+						c.Check(got == "∞", R, "PctRangeString[infinite end]", site, "renders ∞", "an infinite interval end renders "+res.String())
+					case sc != sl || sc != sh:
+						c.Check(got == "?", R, "PctRangeString["+signs+"]", site, "renders ?", fmt.Sprintf("with %s (an end whose sign differs from the centre's, zero counting as its own sign) the range renders %s instead of ?", signs, truncate(res.String(), 80)))
+					case sc == 0:
+						c.Check(got == "0%", R, "PctRangeString["+signs+"]", site, "renders 0%", "an all-zero summary renders "+truncate(res.String(), 80))
+					default:
+						ok := false
+						detail := "the range is not rendered with fmt.Sprintf"
+						if res.Op == "call" && strings.HasPrefix(res.Name, "fmt.Sprintf") {
+							fs, _ := constString2(res.Args[0])
+							args := o.VarArgs(e6Action{Args: res.Args})
+							if fs != "%.0f%%" {
+								detail = fmt.Sprintf("range format is %q, documented %%.0f%%%%", fs)
+							} else if len(args) != 1 {
+								detail = "unexpected Sprintf arguments"
+							} else {
+								pts := []map[string]*big.Rat{
+									{"Center": rat(10, 1), "Lo": rat(8, 1), "Hi": rat(13, 1)},
+									{"Center": rat(7, 2), "Lo": rat(1, 2), "Hi": rat(4, 1)},
+								}
+								if sc < 0 {
+									pts = []map[string]*big.Rat{
+										{"Center": rat(-10, 1), "Lo": rat(-13, 1), "Hi": rat(-8, 1)},
+										{"Center": rat(-7, 2), "Lo": rat(-4, 1), "Hi": rat(-1, 2)},
+									}
+								}
+								ok, detail = e7Equal(args[0], func(g func(string) *big.Rat) *big.Rat {
+									c0 := g("Center")
+									dev := rMax(rAbs(rSub(g("Hi"), c0)), rAbs(rSub(c0, g("Lo"))))
+									return rMul(rat(100, 1), rQuo(dev, rAbs(c0)))
+								}, pts, leafOf)
+							}
+						}
+						c.Check(ok, R, "PctRangeString["+signs+"]", site, "renders 100*max(|Hi-C|,|C-Lo|)/|C| with %.0f%%", detail)
+					}
 				}
 			}
-			c.Check(ok, R, "PctRangeString[regular]", site, "renders 100*max(|Hi-C|,|C-Lo|)/|C| with %.0f%%", detail)
 		}
 	}
-	c.Floor(R, "PctRangeString cases", n, 4)
+	c.Floor(R, "PctRangeString cases", n, 27)
 }
 
 func constString2(s *Sym) (string, bool) {
